@@ -73,3 +73,16 @@ class nonterminal_graph:
             lambda x, y: implies(x in result and y in result[x], y in result), "EdgeLabel,EdgeLabel"),
         "pure": lambda hrg: hrg._edge_labels == old(hrg._edge_labels) and hrg._rule_seq == old(hrg._rule_seq),
     }
+
+
+@contract("fggs.fggs.HRG.rules")
+class HRG_rules:
+    # ASSUMED (see HRG.all_rules): the rules of one left-hand side, as a selection from the flat rule sequence
+    sig = {"self": "HRGView", "lhs": "EdgeLabel"}
+    assumed = True
+    modular = True
+    returns = "seq[RuleV]"
+    ensures = {"view": lambda self, lhs, result: (
+        forall(lambda j: implies(0 <= j and j < len(result), result[j] in self._rule_seq and result[j].lhs == lhs), "int")
+        and forall(lambda i: implies(0 <= i and i < len(self._rule_seq) and self._rule_seq[i].lhs == lhs,
+                                     self._rule_seq[i] in result), "int"))}
